@@ -430,6 +430,11 @@ def nc_model(rng):
     if rng.random() < 0.3:
         cmds[0]["args"]["MissingValue"] = rng.choice([-9999, 1776])
     nf, fz = ["r0"], []
+    if rng.random() < 0.35:
+        # a layer that already holds fuzzy values, read as such (the file is made at run time next to the outputs)
+        cmds.append({"name": "rf", "cmd": "EEMSRead", "args": {"InFileName": "$DIR/fuzzy.nc", "InFieldName": "suitability",
+                                                                "DataType": "Fuzzy"}})
+        fz.append("rf")
     for i in range(rng.randint(1, 4)):
         name = "v%d" % (i + 1)
         k = rng.choice(["Sum", "Copy", "AMinusB", "Multiply", "CvtToFuzzy", "FuzzyNot", "FuzzyOr", "Maximum"])
@@ -466,6 +471,8 @@ def _generate12_nc(rng, index, tier, cell):
             break
     if fault and fault["kind"] == "wrong-kind" and fault.get("label") == "missing-file":
         fault["value"] = "$DIR/nofile.nc"
+    if fault and fault["target"] == "rf" and fault.get("param") == "DataType":
+        fault["target"] = "r0"       # (one fault per model: without its type the fuzzy layer would not be fuzzy either)
     sch = _common_schedule(rng, model, fault)
     sch["layout"]["eol"] = "\n"
     if fault and fault["kind"] == "extra-param":
@@ -992,6 +999,16 @@ def _execute12_nc(sc):
         m2 = copy.deepcopy(model)
         for c in m2["cmds"]:
             c["args"] = _subst_paths(c["args"], nc, root)
+        if any(c["name"] == "rf" for c in m2["cmds"]):
+            import numpy
+            from netCDF4 import Dataset
+            with Dataset(nc) as src, Dataset(os.path.join(root, "fuzzy.nc"), "w") as dst:
+                var = src.variables["elevation"]
+                for d in var.dimensions:
+                    dst.createDimension(d, src.dimensions[d].size)
+                v = dst.createVariable("suitability", "f8", var.dimensions)
+                v[:] = numpy.linspace(-1.0, 1.0, int(numpy.prod(var.shape))).reshape(var.shape)
+            res.probe("NetCDF layer read with DataType = Fuzzy")
         f2 = copy.deepcopy(fault)
         if f2 and "value" in f2:
             f2["value"] = _subst_paths(f2["value"], nc, root)
@@ -1022,7 +1039,7 @@ def _execute12_nc(sc):
                 outcome, exc = "raise", e
             finally:
                 mon.uninstall()
-        produced = sorted(x for x in os.listdir(root))
+        produced = sorted(x for x in os.listdir(root) if x != "fuzzy.nc")      # (the input layer made above is not an output)
         log.emit("outcome", outcome=outcome, exc=type(exc).__name__ if exc else None, produced=produced)
         res.state_keys.add(h64(["nc", label, outcome]))
         if outcome == "abort":
